@@ -3,6 +3,7 @@ import Hgxv.Model.C03
 import Hgxv.Model.C03Spec
 import Hgxv.Model.C03Full
 import Hgxv.Model.C03Kind
+import Hgxv.Model.C03Ext
 /-! Line protocol for C03 (see `harness/c03.py`, functions `op_lines` / `q_line`).  The driver only parses a line into a
 `C03.Op`, calls `C03.step`, and prints the outcome in the canonical (sorted) rendering of the harness.
 
@@ -210,4 +211,95 @@ def stepLine (st : FState × SpecState) (toks : List String) : (FState × SpecSt
       if a2 = out then ((r.1, sst), out) else ((r.1, sst), "spec-mismatch model=" ++ out ++ " spec=" ++ a2)
     | _ => ((r.1, sst), out)
 
-def main : IO Unit := Wire.run stepLine ([], [])
+/-! Extension round: the machine is `C03.xstep` (Model/C03Ext.lean).  New lines:
+`ctor i w hm nodemeta form es ts ws mds` - `TemporalHypergraph(...)` into slot `i` (`construct`; `rej` keeps the state):
+  `hm` = `n` | metadata, `nodemeta` = `-` | `n=md;...`, `form` = `absent` | `timesonly` | `emb` | `sep`,
+  `es` = hyperedges (`!` = an element that is not a `(time, edge)` pair, `emb` only), `ts` = times, `ws`, `mds` as in `addedges`;
+  the abstract side runs `Spec.construct`.
+`x i hashing | mapping | indexof n | edgetable | adjtable | tables` - the new getters; the first three are also
+answered by the abstract map (`Spec.xanswer`) and compared at run time (`spec-mismatch`). -/
+def ctorItem? (e t : String) : Option CtorItem :=
+  if e = "!" then some .other else do pure (.pair (← time? t) (← edge? e))
+
+def zipItems? : List String → List String → Option (List CtorItem)
+  | [], [] => some []
+  | e :: es, t :: ts => do pure ((← ctorItem? e t) :: (← zipItems? es ts))
+  | _, _ => none
+
+def strs (sep emptyTok s : String) : List String := if s = emptyTok then [] else s.splitOn sep
+
+def parseCtor : List String → Option (Nat × CtorArgs)
+  | [i, w, hm, nmd, form, es, ts, ws, mds] => do
+      let hm ← optMd? hm
+      let nm ← listOf? ";" "-" nodeMd? nmd
+      let wl ← if ws = "n" then some none else (ints? ws).map some
+      let ml ← if mds = "n" then some none else (listOf? ";" "-" md? mds).map some
+      let edges ←
+        if form = "absent" then some CtorEdges.absent
+        else if form = "timesonly" then some CtorEdges.timesOnly
+        else if form = "emb" then (zipItems? (strs ";" "-" es) (strs "," "-" ts)).map CtorEdges.embedded
+        else if form = "sep" then do pure (CtorEdges.separate (← listOf? ";" "-" edge? es) (← listOf? "," "-" time? ts))
+        else none
+      pure (← nat? i, { weighted := w = "1", hm := hm, nodeMeta := nm, edges := edges, weights := wl, edgeMeta := ml })
+  | _ => none
+
+def parseXQuery : List String → Option XQuery
+  | ["hashing"] => some .hashing
+  | ["mapping"] => some .mapping
+  | ["indexof", n] => do pure (.indexOf (← nat? n))
+  | ["edgetable"] => some .edgeTable
+  | ["adjtable"] => some .adjTable
+  | ["tables"] => some .tables
+  | _ => none
+
+def showIds (l : List Nat) : String := showList "," "_" toString l
+def showEdgeTable (l : List (Key × Nat)) : String :=
+  showList ";" "-" (fun (p : Key × Nat) => showKey p.1 ++ "#" ++ toString p.2) (sortBy (fun a b => a.2 ≤ b.2) l)
+def showAdjTable (l : List (Node × List Nat)) : String :=
+  showList ";" "-" (fun (p : Node × List Nat) => toString p.1 ++ "=" ++ showIds p.2) (sortBy (fun a b => a.1 ≤ b.1) l)
+def showOpt {α} (f : α → String) : Option α → String
+  | none => "none"
+  | some a => f a
+
+def showXAns : XAns → String
+  | .rej => "rej"
+  | .hash h =>
+    showBool h.weighted ++ "~" ++ showMd h.hmeta ++ "~" ++
+    showList ";" "-" (fun (p : Key × (Int × Meta)) => showKey p.1 ++ "@" ++ toString p.2.1 ++ "=" ++ showMd p.2.2) h.edges ++ "~" ++
+    showList ";" "-" (fun (p : Node × Meta) => toString p.1 ++ "=" ++ showMd p.2) h.nodes
+  | .nodes l => showList "," "-" toString l
+  | .nat n => toString n
+  | .edgeTable l => showEdgeTable l
+  | .adjTable l => showAdjTable l
+  | .tables d =>
+    showOpt showBool d.weighted ++ "~" ++ showOpt showMd d.hmeta ++ "~" ++
+    showOpt (fun l => showList ";" "-" (fun (p : Nat × Int) => toString p.1 ++ "@" ++ toString p.2) (sortBy (fun a b => a.1 ≤ b.1) l)) d.weights ++ "~" ++
+    showOpt showAdjTable d.adj ++ "~" ++ showOpt showEdgeTable d.edgeList ++ "~" ++ showOpt showNodeMeta d.nmeta ++ "~" ++
+    showOpt (fun l => showAns (.idMeta l)) d.emeta ++ "~" ++
+    showOpt (fun l => showList ";" "-" (fun (p : Nat × Key) => toString p.1 ++ "#" ++ showKey p.2) (sortBy (fun a b => a.1 ≤ b.1) l)) d.rev ++ "~" ++
+    showOpt toString d.nextId
+
+def xLine (st : FState × SpecState) (toks : List String) : (FState × SpecState) × String :=
+  match toks with
+  | "ctor" :: rest =>
+    match parseCtor rest with
+    | none => (st, "bad-op")
+    | some (i, a) =>
+      let r := xstep st.1 (.ctor i a)
+      let sst := specCtor st.2 i a
+      let ok := match r.2 with | .out .ok => true | _ => false
+      if ok != (Spec.construct a).isSome then ((r.1, sst), "spec-mismatch ctor") else ((r.1, sst), if ok then "ok" else "rej")
+  | "x" :: i :: rest =>
+    match nat? i, parseXQuery rest with
+    | some i, some q =>
+      match (xstep st.1 (.ask i q)).2 with
+      | .ans a =>
+        let out := showXAns a
+        match (AL.get? st.2 i).bind (fun sp => Spec.xanswer sp q) with
+        | some a2 => if showXAns a2 = out then (st, out) else (st, "spec-mismatch model=" ++ out ++ " spec=" ++ showXAns a2)
+        | none => (st, out)
+      | _ => (st, "bad-op")
+    | _, _ => (st, "bad-op")
+  | _ => stepLine st toks
+
+def main : IO Unit := Wire.run xLine ([], [])
